@@ -10,7 +10,7 @@
 From Coq Require Import List ZArith Bool Lia.
 From Coq.Strings Require Import Byte.
 From Verif Require Import Base.Bytes Base.BE Wire.TType Wire.WVal Wire.Codec Wire.CodecFacts
-  Wire.Schema Wire.Value Wire.Std Wire.StdFacts Wire.Fast Wire.FastFacts Wire.FastReadFacts.
+  Wire.Schema Wire.Value Wire.Std Wire.StdFacts Wire.Fast Wire.FastFacts Wire.FastReadFacts Wire.FastStdFacts.
 Import ListNotations.
 Open Scope Z_scope.
 
@@ -48,6 +48,28 @@ Theorem C10_fast_append_is_std_any_type : forall e v t w,
   to_w e t v = Ok w -> fa_val e t v = enc (sortw w).
 Proof. exact fa_val_is_std. Qed.
 Print Assumptions C10_fast_append_is_std_any_type.
+
+(* ---- ... and that encoding is read back as the value: for every schema (wf_env), struct-like and
+        well-typed value, the bytes of FastAppend are the encoding of a well-formed wire struct w — the
+        reference decoder returns it, whatever follows — and the standard generated Read, started from
+        NewX(), turns them into the value (its normal form norm_struct: exactly what the standard
+        Write/Read round trip of C02 shows) ---- *)
+
+Theorem C10_fast_append_std_read : forall e s v,
+  wf_env e = true -> find_struct e (s_name s) = Some s -> wt e s v = true ->
+  exists w, wf w /\
+    (forall rest, dec_struct (fast_append e s v ++ rest) = Some (w, rest)) /\
+    read_new e s w = Ok (norm_struct e s v) /\
+    (forall rest, read_bytes e s (new_struct e s) (fast_append e s v ++ rest) = Ok (norm_struct e s v)).
+Proof. exact fast_append_std_read. Qed.
+Print Assumptions C10_fast_append_std_read.
+
+(* the standard Read does not depend on the order of the fields of a struct, at any level, when the ids of
+   each struct are distinct and the read succeeds (why FastAppend may sort them) *)
+Theorem C10_std_read_order_independent : forall e w t v,
+  uniqb w = true -> from_w e t w = Ok v -> from_w e t (sortw w) = Ok v.
+Proof. exact (fun e w => from_w_sortw e w). Qed.
+Print Assumptions C10_std_read_order_independent.
 
 (* ---- gopkg's Skip (as transcribed in fskip) consumes exactly a well-formed encoding of at most its
         depth limit ---- *)
@@ -166,3 +188,13 @@ Theorem C10_fast_read_corrupted_overrun_refuted :
                    fast_read e s (new_struct e s) (x0d :: bs) = FErr FOverrun.
 Proof. exact fast_read_corrupted_overrun_refuted. Qed.
 Print Assumptions C10_fast_read_corrupted_overrun_refuted.
+
+(* a container size taken from the input is accepted although nothing follows it: make(T, 2147483647) is
+   executed before the first element read fails. The model answers with the error; under a memory limit the
+   Go runtime aborts the process instead (recorded finding; the standard generated Read allocates alike) *)
+Theorem C10_fast_read_hostile_size_refuted :
+  exists e s bs n r,
+    fast_read e s (new_struct e s) bs = FErr FShort /\
+    rd_list_begin (skipn 3 bs) = FOk (n, r) /\ n = 2147483647 /\ r = [].
+Proof. exact fast_read_hostile_size_refuted. Qed.
+Print Assumptions C10_fast_read_hostile_size_refuted.
